@@ -1338,6 +1338,22 @@ func main() {
 	emitSkel(&b, "IntIntMap_ToBytes", method(hm, "IntIntMap", "ToBytes"))
 	emitSteps(&b, "IntIntMap_ToBytes", method(hm, "IntIntMap", "ToBytes"))
 
+	// ---- EventPack.Write: the keys it removes from Attr again (this.Attr.Remove(K)), in order
+	{
+		var ks []string
+		if fd := method(files["EventPack"], "EventPack", "Write"); fd != nil {
+			ast.Inspect(fd.Body, func(n ast.Node) bool {
+				if c, ok := n.(*ast.CallExpr); ok && len(c.Args) == 1 {
+					if se, ok := c.Fun.(*ast.SelectorExpr); ok && se.Sel.Name == "Remove" && text(se.X) == "this.Attr" {
+						ks = append(ks, leanStr(text(c.Args[0])))
+					}
+				}
+				return true
+			})
+		}
+		fmt.Fprintf(&b, "def eventRemovedKeys : List String := [%s]\n\n", strings.Join(ks, ", "))
+	}
+
 	// ---- state carried between Writes
 	{
 		files["AbstractPack"] = ap
